@@ -3,7 +3,7 @@ From Coq Require Import ZArith List Bool.
 From Coq Require String.
 From PS.model Require Import Smt Enc Ind Prog.
 From PS.spec Require Import Spec.
-From PS.proofs Require Import Base Cons_proof Res_proof Wf_proof C06_proof Reach_proof C02_capacity Examples.
+From PS.proofs Require Import Base Cons_proof Res_proof Wf_proof C06_proof Reach_proof C11_views C02_capacity C02_reach Examples.
 Import ListNotations.
 Open Scope Z_scope.
 
@@ -34,6 +34,25 @@ Theorem C02_capacity_hypothesis_satisfiable : exists st, reaches ex2_prog st /\ 
   /\ List.length (spec_C02_capacity st) = 2%nat.
 Proof. unfold reaches. vm_compute run. eexists. split; [reflexivity|]. split; vm_compute; reflexivity. Qed.
 Print Assumptions C02_capacity_hypothesis_satisfiable.
+(* The structural hypothesis holds in every reachable state in which no requirement names a unit worker directly
+   (invariants over the construction steps: an automatic selection lists exactly the units of a cumulative worker with
+   "at least one"; listed resources are required resources; cumulative identifiers are distinct; units are workers; and
+   the busy-flag link of C11_views).  So the capacity statement needs no hypothesis beyond that guard. *)
+Theorem C02_cumul_ok_reachable : forall ops st, reaches ops st -> no_direct_unit st -> cumul_ok st = true.
+Proof. exact reachable_cumul_ok. Qed.
+Print Assumptions C02_cumul_ok_reachable.
+Theorem C02_cumulative_capacity_reachable : forall ops st e, reaches ops st -> no_direct_unit st -> sat e (initialize st) ->
+  forall k f, In (k, f) (spec_C02_capacity st) -> feval e f = true.
+Proof.
+  intros ops st e Hr Hg Hs. apply C02_capacity_sound; auto.
+  - exact (reachable_cumul_ok ops st Hr Hg).
+  - exact (proj1 (reachable_inv ops st Hr)).
+Qed.
+Print Assumptions C02_cumulative_capacity_reachable.
+Theorem C02_guard_satisfiable : exists st, reaches ex2_prog st /\ no_direct_unit st
+  /\ List.length (spec_C02_capacity st) = 2%nat.
+Proof. unfold reaches. vm_compute run. eexists. split; [reflexivity|]. split; [apply no_direct_unitb_ok|]; vm_compute; reflexivity. Qed.
+Print Assumptions C02_guard_satisfiable.
 Theorem C02_exclusive_instants : forall e1 s1 e2 s2,
   (e1 <= s2 \/ e2 <= s1) -> forall tau, ~ (s1 <= tau < e1 /\ s2 <= tau < e2).
 Proof. exact exclusive_instants. Qed.
